@@ -236,6 +236,24 @@ pub fn k18(a: u64, b: u64) -> u64 { let s = format!("k{}|{}", a % 100, b % 10); 
 pub fn k19(a: u64, b: u64) -> u64 { let l = parking_lot::Mutex::new(a % 9); let g = l.try_lock(); let blocked = l.try_lock().is_none(); drop(g); let free = l.try_lock().is_some(); let rw = parking_lot::RwLock::new(b % 9); let r1 = rw.read(); let r2 = rw.try_read().is_some(); let w = rw.try_write().is_none(); let v = *r1; drop(r1); let fin = *l.lock(); blocked as u64 + free as u64 * 10 + r2 as u64 * 100 + w as u64 * 1000 + v * 10000 + fin * 100000 }
 
 macro_rules! table3 { ($($n:literal => $f:ident),* $(,)?) => {
-    pub fn run3(n: u32, a: u64, b: u64) -> Option<u64> { match n { $($n => Some($f(a, b)),)* _ => None } }
+    pub fn run3(n: u32, a: u64, b: u64) -> Option<u64> { match n { $($n => Some($f(a, b)),)* _ => run4(n, a, b) } }
 } }
 table3! { 301 => k01, 302 => k02, 303 => k03, 304 => k04, 305 => k05, 306 => k06, 307 => k07, 308 => k08, 309 => k09, 310 => k10, 311 => k11, 312 => k12, 313 => k13, 314 => k14, 315 => k15, 316 => k16, 317 => k17, 318 => k18, 319 => k19 }
+
+// ======================================================================== fourth batch: paths used as functions, write!, misc
+use std::fmt::Write as FmtWrite;
+pub fn l01(a: u64, b: u64) -> u64 { let mut s = String::new(); write!(s, "{}|{:?}", a % 10, b % 10).unwrap(); write!(&mut s, "x").unwrap(); s.push('!'); let t = format!("{}|{}x!", a % 10, b % 10); (s == t) as u64 + s.len() as u64 * 10 }
+pub fn l02(a: u64, b: u64) -> u64 { let f: fn() -> Vec<u64> = Vec::new; let mut v = f(); v.push(a % 5); let g: fn(u64, u64) -> u64 = std::cmp::max; v.len() as u64 + g(a % 9, b % 9) * 10 }
+pub fn l03(a: u64, b: u64) -> u64 { let o: Option<u32> = if a % 2 == 0 { Some((b % 9) as u32) } else { None }; o.map(u64::from).unwrap_or_default() + opt(a).map(Some).flatten().unwrap_or(7) * 100 }
+pub fn l04(a: u64, b: u64) -> u64 { let v: Vec<String> = seq(a, b).iter().map(ToString::to_string).collect(); let r: Vec<&str> = v.iter().map(String::as_str).collect(); let c: Vec<String> = v.iter().map(Clone::clone).collect(); r.len() as u64 + (c == v) as u64 * 10 + r.iter().filter(|x| **x == "9").count() as u64 * 100 }
+pub fn l05(a: u64, b: u64) -> u64 { let rs = vec![res(a), res(b), res(a + b)]; let oks: Vec<u64> = rs.iter().cloned().filter_map(Result::ok).collect(); let errs = rs.iter().filter(|r| r.is_err()).count() as u64; let e: Option<Vec<u64>> = None; oks.iter().sum::<u64>() + errs * 100 + e.unwrap_or_else(Vec::new).len() as u64 * 1000 + rs.into_iter().map(Result::unwrap_or_default).sum::<u64>() * 10000 }
+pub fn l06(a: u64, b: u64) -> u64 { static TAB: once_cell::sync::Lazy<parking_lot::Mutex<VecDeque<u64>>> = once_cell::sync::Lazy::new(Default::default); let mut g = TAB.lock(); g.clear(); g.push_back(a % 7); g.extend([b % 7, 3]); let n = g.len() as u64; let s: u64 = g.iter().sum(); n + s * 10 }
+pub fn l07(a: u64, b: u64) -> u64 { let v = seq(a, b); let (ev, od): (Vec<u64>, Vec<u64>) = v.iter().partition(|x| **x % 2 == 0); let (xs, ys): (Vec<u64>, Vec<usize>) = v.iter().enumerate().map(|(i, x)| (*x, i)).unzip(); ev.len() as u64 + od.len() as u64 * 10 + xs.iter().sum::<u64>() * 100 + ys.iter().sum::<usize>() as u64 * 100000 }
+pub fn l08(a: u64, b: u64) -> u64 { let q = names(a, b); let total: usize = q.iter().map(String::len).sum(); let longest = q.iter().map(|s| s.len()).max().unwrap_or(0); let joined = q.iter().map(|s| s.as_str()).collect::<Vec<_>>().join(","); total as u64 + longest as u64 * 100 + joined.len() as u64 * 1000 }
+pub fn l09(a: u64, b: u64) -> u64 { let mut m: HashMap<u64, VecDeque<u64>> = HashMap::new(); for x in seq(a, b) { m.entry(x % 3).or_insert_with(VecDeque::new).push_back(x); } let mut ks: Vec<&u64> = m.keys().collect(); ks.sort_unstable(); let first = m.get(ks[0]).and_then(VecDeque::front).copied().unwrap_or(0); let tot: usize = m.values().map(VecDeque::len).sum(); first + tot as u64 * 10 + ks.len() as u64 * 1000 }
+pub fn l10(a: u64, b: u64) -> u64 { let v = seq(a, b); let r = v.iter().try_fold(0u64, |acc, x| if *x == 9 { None } else { Some(acc + x) }); let s: Result<u64, u64> = v.iter().try_fold(0u64, |acc, x| if acc > 12 { Err(acc) } else { Ok(acc + x) }); r.unwrap_or(555) + match s { Ok(t) => t, Err(e) => 100 + e } * 1000 }
+
+macro_rules! table4 { ($($n:literal => $f:ident),* $(,)?) => {
+    pub fn run4(n: u32, a: u64, b: u64) -> Option<u64> { match n { $($n => Some($f(a, b)),)* _ => None } }
+} }
+table4! { 401 => l01, 402 => l02, 403 => l03, 404 => l04, 405 => l05, 406 => l06, 407 => l07, 408 => l08, 409 => l09, 410 => l10 }
